@@ -5,4 +5,5 @@ Extraction "gf_model.ml" from_vec gf_of_int gf_of_map gf_neg gf_add gf_sub gf_ad
   gf_mul_int gf_mul gf_mul_assign gf_sqr gf_div gf_quo gf_rem gf_quo_int gf_rem_int
   gf_lshift gf_rshift gf_pow gf_pow_mod gf_monic gf_gcd gf_lcm gf_diff gf_eval gf_multi_eval
   gf_compose_mod gf_is_sqf gf_sqf_list gf_sqf_part gf_frobenius_monomial_base gf_frobenius_map
-  gf_ddf_zassenhaus gf_edf_zassenhaus gf_zassenhaus gf_factor.
+  gf_ddf_zassenhaus gf_edf_zassenhaus gf_zassenhaus gf_factor
+  gf_ddf_shoup gf_edf_shoup gf_shoup gf_trace_map.
